@@ -165,6 +165,9 @@ type Chapter struct {
 	Paras     []string
 	MediaType string // default application/xhtml+xml
 	Missing   bool   // listed in manifest (and spine) but the file is not in the ZIP
+	// Linear: "" (attribute absent) | "yes" | "no" — the spine itemref's linear
+	// attribute. Auxiliary (linear="no") items keep their place in the spine.
+	Linear string
 }
 
 // Book is a whole publication.
@@ -273,20 +276,21 @@ func (b *Book) Members(r *rand.Rand) []Member {
 
 	// spine with optional nav position
 	type spineRef struct {
-		idref string
+		idref  string
+		linear string
 	}
 	var spine []spineRef
 	var items []manifestItem
 	for i := range b.Spine {
 		if b.NavPath != "" && b.NavInSpine == i {
-			spine = append(spine, spineRef{"nav-doc"})
+			spine = append(spine, spineRef{"nav-doc", ""})
 		}
 		c := &b.Spine[i]
-		spine = append(spine, spineRef{c.ID})
+		spine = append(spine, spineRef{c.ID, c.Linear})
 		items = append(items, manifestItem{c.ID, href(c), c.mediaType(), ""})
 	}
 	if b.NavPath != "" && b.NavInSpine >= len(b.Spine) {
-		spine = append(spine, spineRef{"nav-doc"})
+		spine = append(spine, spineRef{"nav-doc", ""})
 	}
 	for i := range b.ManifestOnly {
 		c := &b.ManifestOnly[i]
@@ -325,7 +329,11 @@ func (b *Book) Members(r *rand.Rand) []Member {
 		opf.WriteString("<spine>\n")
 	}
 	for _, s := range spine {
-		fmt.Fprintf(&opf, `<itemref idref="%s"/>`+"\n", esc(s.idref))
+		lin := ""
+		if s.linear != "" {
+			lin = ` linear="` + s.linear + `"`
+		}
+		fmt.Fprintf(&opf, `<itemref idref="%s"%s/>`+"\n", esc(s.idref), lin)
 	}
 	opf.WriteString("</spine>\n")
 	if b.Guide && ver < 3 && len(b.Spine) > 0 {
